@@ -21,6 +21,7 @@ import itertools
 import warnings
 
 from mc.exprspec import build, children, show, to_spec, tup
+from mc.adaptive import amap
 from mc.runner import violation
 
 PROP = "C11"
@@ -416,7 +417,7 @@ def run(ctx):
     subjects = get_lattice(False, thorough)
     patterns = get_lattice(True, thorough)
     nsh = 96
-    res = ctx.pmap(_shard, [(thorough, i, nsh) for i in range(nsh)])
+    res, how = amap(ctx, _shard, [(thorough, i, nsh) for i in range(nsh)])
     per_sig = {}
     allv = []
     for r in res:
@@ -436,6 +437,7 @@ def run(ctx):
         "distinct_nontrivial": sum(r["nt"] for r in res),
         "samples": [r["sample"] for r in res if r["sample"]][:5],
         "exhaustive": True,
+        "execution": how,
         "bounds": {"subjects": len(subjects), "patterns": len(patterns), "max_depth": 2, "widths": list(WIDTHS),
                    "jokers": "j1, j2 per width", "seeds": ["{j1:8 -> a:8}"], "node_kinds": [k[0] for k in KINDS]},
         "match_calls": sum(r["n"] for r in res) * 2,
